@@ -201,7 +201,7 @@ pub async fn scenario() {
 	let frag = match rt::draw("frag", 4) {
 		0 | 1 => Frag::default(),
 		2 => Frag { short: true, latency_ms: 0, cap: 0 },
-		_ => Frag { short: true, latency_ms: 5, cap: 0 },
+		_ => Frag { short: true, latency_ms: 5, cap: *rt::pick("stream_cap", &[0usize, 48, 200]) },
 	};
 	let n_conns = rt::draw_range("n_conns", 1, 2);
 	let http_over_stream = rt::chance("http_over_stream", 1, 4);
